@@ -13,7 +13,8 @@
 extern int vh_libc_called, vh_n_store;
 int vh_ref_has_n(const char *f, int is_scanf);
 int vh_ref_has_n_w(const wchar_t *f, int is_scanf);
-static const char ALPHA[16] = {'%', 'n', 'l', 'h', '5', '*', '.', 'd', 'a', ' ', '$', '[', ']', 'Z', '1', 's'};
+#define NALPHA 22
+static const char ALPHA[NALPHA] = {'%', 'n', 'l', 'h', '5', '*', '.', 'd', 'a', ' ', '$', '[', ']', 'Z', '1', 's', '0', '-', '+', '#', '\'', 'I'};
 static int N = 0x5a5a;
 #if VH_CBMC
 static FILE vh_file;
@@ -50,7 +51,7 @@ V0(n_vscanf, vscanf_s(fmt, ap))
 VH_MAIN_BEGIN
     unsigned flen = in.flen % (FL + 1);
     for (unsigned i = 0; i < FL; i++)
-        fmtbuf[i] = (i < flen) ? (CH)ALPHA[in.f[i] % 16] : 0;
+        fmtbuf[i] = (i < flen) ? (CH)ALPHA[in.f[i] % NALPHA] : 0;
     fmtbuf[FL] = 0;
     const CH *fmt = fmtbuf;
     set_str_constraint_handler_s(vh_handler);
